@@ -66,11 +66,11 @@ theorem not_mem_expiredKeys_of_live {l : AMap} {now k d : Nat} (hg : get l k = s
     k ∉ expiredKeys l now := by
   intro hm; obtain ⟨d', hg', hd'⟩ := mem_expiredKeys.mp hm; rw [hg] at hg'; cases hg'; omega
 
-/-- with at most 10 entries the 10-entry sample of `may_have_expired_keys` sees every entry. -/
-theorem mayHaveExpired_of_due {l : AMap} {now k d : Nat} (hg : get l k = some d) (hd : d ≤ now)
-    (hlen : l.length ≤ 10) : mayHaveExpired l now = true := by
+/-- `may_have_expired_keys` sees every entry (fix F47). -/
+theorem mayHaveExpired_of_due {l : AMap} {now k d : Nat} (hg : get l k = some d) (hd : d ≤ now) :
+    mayHaveExpired l now = true := by
   unfold mayHaveExpired
-  rw [List.take_of_length_le hlen, List.any_eq_true]
+  rw [List.any_eq_true]
   exact ⟨(k, d), get_some_mem hg, by simp [isExpired, hd]⟩
 
 /-! ### quiet ops: ops that cannot (legitimately) change key `k` while it holds `v` -/
@@ -111,7 +111,7 @@ theorem reopen_now (s : St) : (reopen s).now = s.now := by
 
 theorem now_le_step (s : St) (op : Op) : s.now ≤ (step s op).1.now := by
   cases op with
-  | put k v ttl => cases ttl <;> simp only [step] <;> (try split) <;> simp
+  | put k v ttl => cases ttl <;> simp [step]
   | del k => simp [step]
   | cas k e v => simp only [step]; split <;> simp
   | adv n => simp [step]
@@ -142,10 +142,7 @@ theorem step_live_plain {s : St} {op : Op} {k v : Nat} (hq : quiet k v op = true
     have hk : k' ≠ k := by simpa [quiet] using hq
     cases ttl with
     | none => simp [step, get_set_ne _ _ hk, get_erase_ne _ hk, hd, hl]
-    | some t =>
-      simp only [step]; split
-      · exact ⟨hd, hl⟩
-      · simp [get_set_ne _ _ hk, hd, hl]
+    | some t => simp [step, get_set_ne _ _ hk, hd, hl]
   | del k' =>
     have hk : k' ≠ k := by simpa [quiet] using hq
     simp [step, get_erase_ne _ hk, hd, hl]
@@ -181,10 +178,7 @@ theorem step_live_ttl {s : St} {op : Op} {k v d : Nat} (hq : quiet k v op = true
     have hk : k' ≠ k := by simpa [quiet] using hq
     cases ttl with
     | none => simp [step, get_set_ne _ _ hk, get_erase_ne _ hk, hd, hl]
-    | some t =>
-      simp only [step]; split
-      · exact ⟨hd, hl⟩
-      · simp [get_set_ne _ _ hk, hd, hl]
+    | some t => simp [step, get_set_ne _ _ hk, hd, hl]
   | del k' =>
     have hk : k' ≠ k := by simpa [quiet] using hq
     simp [step, get_erase_ne _ hk, hd, hl]
@@ -223,10 +217,7 @@ theorem step_absent {s : St} {op : Op} {k v : Nat} (hq : quietStrict k v op = tr
     have hk : k' ≠ k := by simpa [quietStrict] using hq
     cases ttl with
     | none => simp [step, get_set_ne _ _ hk, get_erase_ne _ hk, hd, hl]
-    | some t =>
-      simp only [step]; split
-      · exact ⟨hd, hl⟩
-      · simp [get_set_ne _ _ hk, hd, hl]
+    | some t => simp [step, get_set_ne _ _ hk, hd, hl]
   | del k' =>
     have hk : k' ≠ k := by simpa [quietStrict] using hq
     simp [step, get_erase_ne _ hk, hd, hl]
@@ -314,10 +305,7 @@ theorem step_liveOrGone {s : St} {op : Op} {k v d : Nat} (hq : quietStrict k v o
         left
         cases ttl with
         | none => simp [step, get_set_ne _ _ hk, get_erase_ne _ hk, hd, hl]
-        | some t =>
-          simp only [step]; split
-          · exact ⟨hd, hl⟩
-          · simp [get_set_ne _ _ hk, hd, hl]
+        | some t => simp [step, get_set_ne _ _ hk, hd, hl]
       | del k' =>
         have hk : k' ≠ k := by simpa [quietStrict] using hq
         left; simp [step, get_erase_ne _ hk, hd, hl]
